@@ -119,8 +119,12 @@ func (r *Report) Add(key string, n int64) {
 	r.mu.Unlock()
 }
 
-func (r *Report) Note(s string)       { r.mu.Lock(); r.Notes = append(r.Notes, s); r.mu.Unlock() }
-func (r *Report) Assume(s string)     { r.mu.Lock(); r.Assumptions = append(r.Assumptions, s); r.mu.Unlock() }
+func (r *Report) Note(s string) { r.mu.Lock(); r.Notes = append(r.Notes, s); r.mu.Unlock() }
+func (r *Report) Assume(s string) {
+	r.mu.Lock()
+	r.Assumptions = append(r.Assumptions, s)
+	r.mu.Unlock()
+}
 func (r *Report) NotExhaustive(why string) {
 	r.mu.Lock()
 	r.Exhaustive = false
